@@ -268,6 +268,9 @@ func dRel(g *G) {
 			xj := finDec(neg, b, base.E)
 			if reform {
 				z := g.R.between(0, 3)
+				if g.R.Intn(4) == 0 { // one element alone carries more than 128 further digits
+					z = g.R.between(129, 140)
+				}
 				bb := new(bigIntT).Mul(b, new(bigIntT).Exp(bigInt(10), bigInt(int64(z)), nil))
 				if z > 0 && g.R.bool() {
 					bb.Add(bb, bigInt(int64(g.R.between(0, 9)))) // still below the next element, which is at least b+1
